@@ -246,10 +246,10 @@ func runDavTasks(plan *Plan, tasks []TaskPlan, log *Log) (*concResult, string) {
 	var cardS *shardCard
 	if plan.Config.Server == "carddav" {
 		cardS = newShardCard(&tarr)
-		h = &carddav.Handler{Backend: cardS}
+		h = &carddav.Handler{Backend: cardS, Prefix: plan.Config.Prefix}
 	} else {
 		calS = newShardCal(&tarr)
-		h = &caldav.Handler{Backend: calS}
+		h = &caldav.Handler{Backend: calS, Prefix: plan.Config.Prefix}
 	}
 	time.Sleep(time.Until(epoch.Add(time.Hour)))
 	tr := &concTransport{h: h, calibrate: plan.Calibrate, redirected: plan.Config.Redirected}
@@ -382,6 +382,9 @@ func GenC18ConcDav(seed uint64, tier string) *Plan {
 	p := &Plan{Format: 1, Property: "C18", Profile: "concurrent-dav", RunSeed: seed, Config: Config{RootName: RootName}}
 	p.Config.Server = rt.Pick(r, []string{"caldav", "carddav"})
 	p.Config.Redirected = r.Chance(0.3)
+	if r.Chance(0.4) {
+		p.Config.Prefix = "/" // mounted at the root, spelled with its slash
+	}
 	n := 2 + r.Intn(5)
 	for id := 0; id < n; id++ {
 		tp := TaskPlan{ID: id}
